@@ -554,15 +554,16 @@ class Interp:
             raise Skip  # parent is being deleted in this transaction
         dm = self.mdib.data_model
         dcls = T.all_classes()[cname]
-        descr = dcls(handle, parent)
-        self._fill_mandatory(descr)
-        state = dm.mk_state_container(descr)
-        if iface == 'classic':
+        if iface == 'classic' or self._descr(parent) is None:
+            # (entities are made by mdib.entities.new_entity, which needs the parent in the MDIB: a child of a descriptor
+            # created in the same transaction goes through the classic interface)
+            descr = dcls(handle, parent)
+            self._fill_mandatory(descr)
+            state = dm.mk_state_container(descr)
             mgr.add_descriptor(descr, state_container=state)
         else:
-            from sdc11073.mdib import mdibbase
-            descr.set_source_mds(None)
-            ent = mdibbase.Entity(self.mdib, descr, state)
+            ent = self.mdib.entities.new_entity(dcls.NODETYPE, handle, parent)
+            self._fill_mandatory(ent.descriptor)
             mgr.write_entity(ent)
         created_in_tx.add(handle)
         info['created'].add(handle)
